@@ -58,7 +58,7 @@ Atoms ==
    \cup {Atom("enum", e) : e \in {<<One>>, <<S(<<"a">>)>>, <<One, S(<<"a">>), Null>>, <<Arr(<<One>>)>>,
                                   <<Obj(<<"x">>, <<One>>)>>, <<N(6), Bool(TRUE)>>}}
    \cup {Atom("minimum", q) : q \in {0, 4, 6}} \cup {Atom("maximum", q) : q \in {0, 4, 6}}
-   \cup {Atom("multipleOf", q) : q \in {2, 3, 4}}
+   \cup {Atom("multipleOf", q) : q \in {2, 3, 4, 6, 10}}       \* 0.5, 0.75, 1, and the non-integral 1.5, 2.5
    \cup {Atom("minLength", n) : n \in {1, 2}} \cup {Atom("maxLength", n) : n \in {0, 1, 2}}
    \cup {Atom("pattern", p) : p \in Patterns}
    \cup {Atom("minItems", n) : n \in {1, 2}} \cup {Atom("maxItems", n) : n \in {0, 1, 2}}
@@ -68,7 +68,9 @@ Atoms ==
 
 (* features outside the reference evaluator: only relational judgements (C12, C19) *)
 ExtAtoms ==
-   {Atom("format", f) : f \in {"date", "date-time", "byte", "int32", "int64", "no-such-format"}}
+   {Atom("format", f) : f \in {"date", "date-time", "byte", "int32", "int64", "no-such-format",
+                                "ipv4", "ipv6",       \* opt-in validators (DefineIPv4Format / DefineIPv6Format): they return schema errors of their own
+                                "x-even-length"}}     \* a validator the caller registers (harness: strings of even length), returning a plain error
    \cup {Atom("pattern", "^[a-z]+$"), Atom("pattern", "("), Atom("disc", "x"), Atom("discmap", "x")}
 
 (* keywords an outer (wrapping) level may add next to the wrapped schema *)
@@ -102,5 +104,8 @@ Wrappers(s) ==
    \cup {[pk |-> <<"x", "y">>, ps |-> <<s, a>>] : a \in {[type |-> "integer"]}}
    \* a required property that only one side may send: exempt from "required" on the other side
    \cup {[pk |-> <<"x">>, ps |-> <<[readOnly |-> TRUE] @@ s>>, required |-> <<"x">>],
-         [pk |-> <<"x">>, ps |-> <<[writeOnly |-> TRUE] @@ s>>, required |-> <<"x">>]}
+         [pk |-> <<"x">>, ps |-> <<[writeOnly |-> TRUE] @@ s>>, required |-> <<"x">>],
+         \* ... and the same under a negation (the side must reach the negated subschema too)
+         [not |-> [pk |-> <<"x">>, ps |-> <<[readOnly |-> TRUE] @@ s>>, required |-> <<"x">>]],
+         [not |-> [pk |-> <<"x">>, ps |-> <<[writeOnly |-> TRUE] @@ s>>, required |-> <<"x">>]]}
 =============================================================================
